@@ -284,6 +284,26 @@ class C15(vlib.Driver):
                 for lead in [[], [2]]:
                     cases.append({"kind": "prep", "algo": algo, "space": {"t": "box", "shape": big, "dtype": "float32", "low": lo, "high": hi},
                                   "lead": lead, "input": "numpy", "normalize": True, "pat": 1})
+        # ---- round 5: every container family (plain / Dict member / Tuple member) x normalize_images in {True, False} x image bounds
+        #      that are not [0,1] x all input forms: the flag must reach the members of a Tuple and of a Dict alike
+        imgs5 = [{"t": "box", "shape": [1, 2, 2], "dtype": "uint8", "low": 0, "high": 255},
+                 {"t": "box", "shape": [1, 2, 2], "dtype": "int8", "low": -128, "high": 127},
+                 {"t": "box", "shape": [2, 1, 2], "dtype": "float32", "low": [0, 0, 0.25, 0.25], "high": [1, 1, 0.75, 0.75]},
+                 {"t": "box", "shape": [1, 2, 2], "dtype": "float32", "low": -1, "high": 1}]
+        for im in imgs5:
+            for nz in (True, False):
+                for lead in leads:
+                    inps = ["numpy", "tensor"] if lead in ([], [2], [2, 3]) else ["numpy"]
+                    for inp in inps:
+                        cases.append({"kind": "prep", "space": {"t": "tuple", "members": [im, leafs["d3"]]}, "lead": lead, "input": inp,
+                                      "normalize": nz, "pat": 2})
+                    cases.append({"kind": "prep", "space": {"t": "tuple", "members": [leafs["v2"], im, leafs["mb2"]]}, "lead": lead,
+                                  "input": "numpy", "normalize": nz, "pat": 2})
+                    for (order, inp) in (([0, 1], "numpy"), ([1, 0], "tensordict")):
+                        cases.append({"kind": "prep", "space": {"t": "dict", "fields": [[0, leafs["d3"]], [1, im]]}, "lead": lead,
+                                      "input": inp, "normalize": nz, "order": order, "pat": 2})
+            cases.append({"kind": "prep", "space": {"t": "tuple", "members": [im, leafs["d3"]]}, "lead": [2], "input": "numpy",
+                          "normalize": True, "nz_default": True, "pat": 2})
         # MultiBinary with several dimensions (pinned behaviour: batched as a rank-1 space; known finding)
         for dims in ([[2, 3], [1, 2]] + ([[2, 2, 2], [3, 1]] if thorough else [])):
             for lead in [[], [1], [2], [2, 3]]:
